@@ -24,7 +24,7 @@ def replay(fn, params):
     global _SRC
     if _SRC is None:
         src = inspect.getsource(cs)
-        _SRC = inspect.getsource(C08_ref) + '\n\n' + src[:src.index('\ndef case_')] + '\n\n' + '\n\n'.join(inspect.getsource(getattr(cs, h)) for h in ('_nshear', '_ref_elemop', '_ref_nodalop')) + '\n\n'
+        _SRC = inspect.getsource(C08_ref) + '\n\n' + src[:src.index('\ndef case_')] + '\n\n' + '\n\n'.join(inspect.getsource(getattr(cs, h)) for h in ('_given', '_mat', '_ref_elemop', '_ref_nodalop')) + '\n\n'
     return REPLAY_HEAD + _SRC + inspect.getsource(fn) + f"\n\nbad = {fn.__name__}(**{params!r})\nfor b in bad:\n    print(b)\nassert not bad, bad[0][0]\n"
 
 
@@ -43,7 +43,7 @@ SIZES3 = [(1.0, 1.0, 1.0), (0.5, 1.5, 2.0), (2.5, 0.4, 0.7), (0.01, 0.02, 0.05)]
 SIZES2_UNIT_T = [(1.0, 1.0, 1.0), (0.5, 1.5, 1.0), (2.5, 0.4, 1.0), (0.01, 0.02, 1.0)]     # unit thickness where Stress is evaluated in 2-D
 FIELDS_FREE = ['zero', 'rigid', 'normal', 'uniaxial']
 FIELDS_SHEAR = ['shear', 'oneshear', 'general']
-MATS = [(1.0, 0.3, 'strain'), (210e9, 0.3, 'stress'), (67.0, 0.0, 'Stress'), (2.0, -0.4, 'strain'), (5.0, 0.49, 'stress'), (7.0, 0.45, 'STRAIN')]
+MATS = [(1.0, 0.3, 'strain'), (210e9, 0.3, 'stress'), (67.0, 0.0, 'Stress'), (2.0, -0.4, 'strain'), (5.0, 0.49, 'stress'), (7.0, 0.45, 'STRAIN'), (None, None, None)]
 
 
 def domains(tier):
@@ -97,7 +97,7 @@ def _stress(r, tier, seed, strict):
 
 
 @bound('Stress on the same domains, in-plane sizes x unit thickness in 2-D (all sizes in 3-D), materials (E,nu,plane) in {(1,.3,strain),(210e9,.3,stress),(67,0,Stress),(2,-.4,strain),'
-       '(5,.49,stress),(7,.45,STRAIN)}, the 7 affine field kinds: = D(inverse compliance) x output of Strain; normal stresses; full stress for shear-free fields; shear stress up to factor {1,2}; repeat call')
+       '(5,.49,stress),(7,.45,STRAIN), all omitted (defaults 1,.3,strain)}, the 7 affine field kinds: = D(inverse compliance) x output of Strain; normal stresses; full stress for shear-free fields; shear stress up to factor {1,2}; repeat call')
 def stress_affine(r, tier, seed):
     _stress(r, tier, seed, False)
 
@@ -169,12 +169,12 @@ def nodal_complex(r, tier, seed):
             run(r, cs.case_nodal_complex, dict(nx=dom[0], ny=dom[1], nz=dom[2], h=SIZES3[1], ndof=ndof, seed=seed + k))
 
 
-@bound('ThermoMechanical on the same domains x 4 sizes (2-D thickness = third size) x materials x alpha{1e-6,1e-5,2.5} x input{positive,ones,mixed sign,with zeros}: closed-form load, '
+@bound('ThermoMechanical on the same domains x 4 sizes (2-D thickness = third size) x materials x alpha{1e-6,1e-5,2.5,omitted} (and all material arguments omitted: defaults E=1, nu=.3, strain, alpha=1e-6) x input{positive,ones,mixed sign,with zeros}: closed-form load, '
        'orthogonality to the 3/6 rigid motions, = K(x) (alpha p) in plane stress and 3-D with K from AssembleStiffness, operand, second call, sensitivity')
 def thermo(r, tier, seed):
     k = 0
     xks = ['pos', 'ones', 'neg', 'zeros']
-    alphas = [1e-6, 1e-5, 2.5]
+    alphas = [1e-6, 1e-5, 2.5, None]
     for dom in domains(tier):
         for h in SIZES3:
             for (E, nu, plane) in MATS:
@@ -182,7 +182,7 @@ def thermo(r, tier, seed):
                     continue
                 for rep in range(2 if tier == 'quick' else 8):
                     k += 1
-                    run(r, cs.case_thermo, dict(nx=dom[0], ny=dom[1], nz=dom[2], h=h, E=E, nu=nu, alpha=alphas[k % 3], plane=plane, xkind=xks[k % 4], seed=seed + k))
+                    run(r, cs.case_thermo, dict(nx=dom[0], ny=dom[1], nz=dom[2], h=h, E=E, nu=nu, alpha=alphas[k % 4] if E is not None else None, plane=plane, xkind=xks[k % 4], seed=seed + k))
 
 
 CHECKS = [('strain_affine', strain_affine), ('stress_affine', stress_affine), ('energy_identity', energy_identity), ('element_average', element_average),
